@@ -3922,7 +3922,8 @@ namespace jsonschema {
 
             if (schema_val_)
             {
-                eval_context<Json> this_context(context, this->keyword());
+                // member values are validated under fresh flags: what is evaluated inside a member value is not evaluated in this object
+                eval_context<Json> this_context(context, this->keyword(), evaluation_flags{});
                 if (schema_val_->always_fails())
                 {
                     for (const auto& prop : instance.object_range()) 
